@@ -143,7 +143,7 @@ def check_api(case, ctx):
                     ctx.fail("C03/empty/numeric", dict(sub, fields=F, input=i), "empty selection but get_scores returned numbers %r" % (arrs,))
         return
     # obsrange (and everything else) against the model's valid cases
-    dscheck.check_slices(ctx, ID, spec, ds, data, menu, case["axes"], extra={"opts": opts})
+    dscheck.check_slices(ctx, ID, spec, ds, data, menu, case.get("axes") or [case.get("axis", "no")], extra={"opts": opts})
     if "obs_range" in opts:
         ctx.label("obsrange_checked")
 
@@ -176,7 +176,7 @@ def check_driver(case, ctx):
     _counter[0] += 1
     d = os.path.join(ctx.scratch, "c%d" % _counter[0])
     os.makedirs(d)
-    paths, cp = mat.write_files(spec, d, case["kind"])
+    paths, cp = mat.write_files(spec, d, case.get("kind", "text"))
     oargs = render(opts, cp)
     if oargs is None:
         ctx.label("unrenderable")
